@@ -14,6 +14,12 @@ From TT Require Import Num NumR NumI ParamI Tree M_bdsk P_bdsk P_bdsk_param M_op
 Import ListNotations.
 Open Scope R_scope.
 
+(* Admissible epoch (P_bdsk.wf_ep), the hypothesis of every theorem below:
+     wf_ep e  :=  0 < lambda_e /\ 0 < mu_e /\ 0 < psi_e /\ 0 <= rho_e <= 1 /\ t0_e <= t1_e. *)
+Example C09_wf_ep_unfolds : forall e : epoch R,
+  wf_ep e <-> (0 < elam e /\ 0 < emu e /\ 0 < epsi e /\ 0 <= Q2R (erho e) <= 1 /\ Q2R (et0 e) <= Q2R (et1 e)).
+Proof. exact (fun e => conj (fun H => H) (fun H => H)). Qed.
+
 (* Master equation for p.  Inside ANY epoch e of the backward recursion (positive rates, rho in
    [0,1]), whatever probability pn the following epoch hands over at the boundary: the code's
    closed form p0 (with A = Aof, B = Bof as computed by log_p) satisfies
@@ -74,9 +80,11 @@ Theorem C09_split_epoch : forall (l u p : R) (rho t0 t1 t2 : Q) (pre r : list (e
     snd (back NumR (pre ++ e1 :: e2 :: r)%list) = snd (back NumR (pre ++ e :: r)%list) /\
     sp s1 = sp s /\ sA s1 = sA s /\ sA s2 = sA s /\ sB s2 = sB s /\
     (forall tau, 0 <= tau ->
-       Pf l u p (sA s1) (sB s1) tau = Pf l u p (sA s) (sB s) (tau + (Q2R t2 - Q2R t1)) /\
-       Qf (sA s1) (sB s1) tau * Qf (sA s) (sB s) (Q2R t2 - Q2R t1)
-         = Qf (sA s) (sB s) (tau + (Q2R t2 - Q2R t1))).
+       let d := Q2R t2 - Q2R t1 in
+       p0form NumR l u p (sA s1) (sB s1) (exp (sA s1 * tau))
+         = p0form NumR l u p (sA s) (sB s) (exp (sA s * (tau + d))) /\
+       qform NumR (sB s1) (exp (sA s1 * tau)) * qform NumR (sB s) (exp (sA s * d))
+         = qform NumR (sB s) (exp (sA s * (tau + d)))).
 Proof. exact C09_split. Qed.
 Print Assumptions C09_split_epoch.
 
